@@ -5,7 +5,7 @@ import schedlib
 
 def run(c):
     schedlib.run_sched_check(
-        c, "c06", [schedlib.oracle_c06], n_quick=300, n_thorough=3000, golden_name="c06.json",
+        c, "c06", [schedlib.oracle_c06, schedlib.oracle_rest], n_quick=300, n_thorough=3000, golden_name="c06.json",
         rule=("random DAGs (<=7 jobs, <=2 process tokens with totals 1-4, heterogeneous requests, random exit codes, "
               "pre-existing markers, duplicates and re-submissions) under random delivery orders (single and batched) "
               "of lock/process/end-of-job completions, with experiment.wait() called mid-way and at exit; "
